@@ -58,8 +58,9 @@ ASSUMPTIONS = [
     "training steps too, with NA strategies None/mean/zeros/most_frequent, and the models' other constructor "
     "arguments are drawn away from their defaults.  In the Coq theorems the whole feature encoder is the argument "
     "Enc with the hypothesis acts_rowwise Enc enc_r: the individual encoder classes are covered BY OBSERVATION here "
-    "(per-cell models of the encoders belong to C13).  Not generated: LinearModelEncoder (wraps user models), and "
-    "ExcelFormer with StackEncoder (constant prediction: a finding, see report).  LinearBucketEncoder cases run in "
+    "(per-cell models of the encoders belong to C13).  Not generated: LinearModelEncoder (wraps user models).  ExcelFormer "
+    "with StackEncoder IS generated (0 and >= 1 training steps) and reported under the key "
+    "column-dead:ExcelFormer:StackEncoder (constant prediction).  LinearBucketEncoder cases run in "
     "float32 (it raises under a float64 default dtype), tolerance 2e-5 relative there",
     "completeness trials re-draw parameters from the SAME state (fresh initialisation + the same training history), "
     "never by adding noise: a column that cannot influence a freshly initialised model is reported",
@@ -77,10 +78,8 @@ SIZES = [1.0, 10.0, 100.0]
 
 
 # ------------------------------------------------------------------ generation
-# configurations the API accepts but that cannot work, reported as findings instead of being generated:
-# StackEncoder copies the value into every channel and ExcelFormerConv starts with LayerNorm over the channels, which
-# maps a constant vector to zero -- the model's prediction is then the same for every input
-DEGENERATE = {("ExcelFormer", "StackEncoder")}
+# (model, numerical encoder) pairings with a recorded finding; generated like every other pairing
+KNOWN_DEAD = {("ExcelFormer", "StackEncoder")}
 HISTORIES = [lambda rng: [], lambda rng: [rng.randint(1, 3)],
              lambda rng: rng.pick([[rng.randint(1, 2), rng.randint(1, 2)], [1, 1, 1]])]
 
@@ -175,8 +174,6 @@ def generate(rng, tier):
                 continue
             encs = num_classes + [None]
             for enc in encs:
-                if (model, enc) in DEGENERATE:
-                    continue
                 cases.append(gen_case(rng, model, draw_opts(rng, model, enc), tasks[k % 3], history=hist(rng)))
                 k += 1
         # batches larger than the ghost batch size: TabNet (and one other model as a control)
@@ -425,6 +422,12 @@ def oracle(case, obs):
             what = mt.get("what", f"index list of {mt.get('idx_len')} rows")
             return dict(key=f"batch-dependent:{m}", what=f"{m}: model(tf[idx]) differs from model(tf)[idx] by "
                         f"{mt['diff']:.3g} ({what})", expected=f"<= {obs.get('tol', P.TOL)}", observed=mt["diff"])
+    if constant_prediction(case, obs):
+        return dict(key=f"column-dead:{m}:{case['opts']['num_enc']}",
+                    what=f"{m} built with stype_encoder_dict={{numerical: {case['opts']['num_enc']}()}} predicts a constant: "
+                         f"no feature column (and no row) influenced the prediction in {TRIALS} trials after "
+                         f"{case['steps']} training steps (value repeated over the channels, then a LayerNorm over the "
+                         f"channels)", expected="every column can influence the prediction", observed=obs["cols"])
     for r, ch in obs["rows"]:
         if r not in ch:
             return dict(key=f"row-dead:{m}", what=f"{m}: no change of row {r}'s features changed its prediction in "
@@ -434,6 +437,13 @@ def oracle(case, obs):
             return dict(key=f"column-unused:{m}", what=f"{m}: column {j} ({obs['col_kinds'][j]}) never influenced the "
                         f"prediction in {TRIALS} trials with re-drawn parameters", expected=True, observed=False)
     return None
+
+
+def constant_prediction(case, obs):
+    """Exactly the recorded picture: the model + numerical-encoder pairing of KNOWN_DEAD, forward succeeded, and NO
+    row and NO column influenced the prediction.  Every other failure of that configuration keeps its ordinary key."""
+    return ((case["model"], case["opts"].get("num_enc")) in KNOWN_DEAD and obs.get("ok")
+            and not any(obs["cols"]) and all(r not in ch for r, ch in obs["rows"]))
 
 
 def shrink(case):
@@ -533,6 +543,8 @@ def coq_model_term(case, obs, model=None):
 def coq_term(case, obs, model=None):
     if not obs.get("ok"):
         return None
+    if model is None and constant_prediction(case, obs):
+        return None      # recorded finding column-dead:*: the footprint is empty, reported by the oracle
     rows = "[" + "; ".join(f"({r}, {P.cnats(ch)})" for r, ch in obs["rows"]) + "]"
     fps = "[" + "; ".join("None" if m is None else f"Some {P.cbmat(m)}" for m in obs["probe_fp"]) + "]"
     return f"model_fp_ok {obs['ncols']} ({coq_model_term(case, obs, model)}) {obs['n']} {rows} {fps}"
@@ -674,8 +686,12 @@ def sanity(cases, obss):
         if m == "TabTransformer":
             continue
         for cls in drawn:
-            if cls != "None" and (m, cls) not in DEGENERATE and d.get("zero_step_encoders", {}).get(f"{m}/{cls}", 0) == 0:
+            if cls != "None" and d.get("zero_step_encoders", {}).get(f"{m}/{cls}", 0) == 0:
                 probs.append(f"{m} with {cls} never scored at 0 training steps")
+    for m, cls in sorted(KNOWN_DEAD):
+        hs = [bool(c.get("history")) for c in cases if c is not None and c["model"] == m and c["opts"].get("num_enc") == cls]
+        if not (any(hs) and not all(hs)):
+            probs.append(f"{m} with {cls} (recorded finding) not drawn both at 0 and at >= 1 training steps")
     defaults = {"norm": "layer_norm", "channels": None, "layers": None, "dropout": "0.2", "heads": None, "pad": None,
                 "prompts": None, "attn_channels": None, "gamma": "1.2", "shared": "2", "cat_emb": "2",
                 "num_na": "None", "cat_na": "None"}
